@@ -1,8 +1,392 @@
 /-
-C04 — tables, structs, arrays and buffers behave as maps and sequences.  Property theorems only.
+C04 — tables, structs, arrays and buffers behave as maps and sequences.  Property theorems only
+(models: Table/Model.lean, Seq/Model.lean; lemmas: Table/Lemmas.lean; generated data: Gen/Table.lean, Gen/Seq.lean).
+
+Tables.  `Inv h t` = the structural invariant of the bucket array (no duplicate keys; probe-path property: no empty
+bucket between a key's home bucket and its bucket, cyclically; stored values are non-nil) + "no NULL bucket was
+dereferenced".  The abstraction of a table is the function `k ↦ rawget t k` (nil = absent), so "putting nil removes"
+is part of the map update itself.  All theorems are for every hash function `h`, every table satisfying the
+invariant and every operation list.
+
+What is *not* proved here (see notes/C04.md): that the NULL dereference flag `bad` never goes up (it needs the
+counting argument count + deleted < capacity; the theorems below are stated for runs on which the flag stayed down,
+and the correspondence harness compares the flag on every op), `count` = number of keys, capacity a power of two,
+and the refinement theorems for arrays / buffers other than index decoding.
 -/
-import JanetModel.Table.Model
+import JanetModel.Table.Lemmas
 import JanetModel.Seq.Model
 
 namespace JanetModel.Props.C04
+open JanetModel.Table JanetModel.Gen.Table
+
+/-! ## tables -/
+
+/-- invariant of a table -/
+structure Inv (h : Nat → Nat) (t : Table) : Prop where
+  d : DInv h t.data
+  ok : t.bad = false
+
+/-- the finite map a table stands for: key ↦ value, nil = absent -/
+def abs (h : Nat → Nat) (t : Table) : Nat → Val := fun k => t.rawget h k
+
+/-- operations of a history (clone is the identity on the value level; get / in / rawget / next / length do not
+change the table) -/
+inductive Op where
+  | put (k : KArg) (v : Val)
+  | remove (k : Nat)
+  | clear
+  | merge (kvs : List Slot)
+  | setproto (p : Option Nat)
+
+def step (h : Nat → Nat) (t : Table) : Op → Table
+  | .put k v => t.put h k v
+  | .remove k => (t.remove h k).1
+  | .clear => t.clear
+  | .merge kvs => t.mergekv h kvs
+  | .setproto p => { t with proto := p }
+
+def run (h : Nat → Nat) (t : Table) (ops : List Op) : Table := ops.foldl (step h) t
+
+/-- reference semantics on finite maps -/
+def upd (m : Nat → Val) (k : Nat) (v : Val) : Nat → Val := fun k' => if k' = k then v else m k'
+
+def specStep (m : Nat → Val) : Op → (Nat → Val)
+  | .put (.key k) v => upd m k v            -- a nil value erases
+  | .put _ _ => m                            -- nil and NaN keys are ignored
+  | .remove k => upd m k vNil
+  | .clear => fun _ => vNil
+  | .merge kvs => kvs.foldl (fun m kv => match kv.key with | some k => upd m k kv.val | none => m) m
+  | .setproto _ => m
+
+theorem inv_init (h : Nat → Nat) (n : Nat) : Inv h (Table.init n) :=
+  ⟨DInv.replicate h _, rfl⟩
+
+theorem abs_init (h : Nat → Nat) (n : Nat) (k : Nat) : abs h (Table.init n) k = vNil :=
+  rawget_miss (fun i => by
+    show ¬ (slotAt (Array.replicate _ Slot.empty) i).key = some k
+    rw [slotAt_replicate]; simp [Slot.empty])
+
+theorem inv_clear (h : Nat → Nat) (t : Table) (inv : Inv h t) : Inv h t.clear :=
+  ⟨DInv.replicate h _, inv.ok⟩
+
+theorem abs_clear (h : Nat → Nat) (t : Table) (k : Nat) : abs h t.clear k = vNil :=
+  rawget_miss (fun i => by
+    show ¬ (slotAt (Array.replicate _ Slot.empty) i).key = some k
+    rw [slotAt_replicate]; simp [Slot.empty])
+
+theorem inv_clone (h : Nat → Nat) (t : Table) (inv : Inv h t) : Inv h t.clone := ⟨inv.d, inv.ok⟩
+
+theorem abs_clone (h : Nat → Nat) (t : Table) (k : Nat) : abs h t.clone k = abs h t k := rfl
+
+theorem inv_remove (h : Nat → Nat) (t : Table) (inv : Inv h t) (k : Nat) : Inv h (t.remove h k).1 :=
+  ⟨(remove_spec inv.d k).1, by rw [(remove_spec inv.d k).2.1]; exact inv.ok⟩
+
+theorem abs_remove (h : Nat → Nat) (t : Table) (inv : Inv h t) (k : Nat) :
+    abs h (t.remove h k).1 = upd (abs h t) k vNil ∧ (t.remove h k).2 = abs h t k := by
+  refine ⟨funext (fun k' => ?_), (remove_spec inv.d k).2.2.1⟩
+  exact (remove_spec inv.d k).2.2.2 k'
+
+/-- `janet_table_rehash` keeps the invariant and the abstraction -/
+theorem inv_rehash (h : Nat → Nat) (t : Table) (inv : Inv h t) (n : Nat) (hb : (t.rehash h n).bad = false) :
+    Inv h (t.rehash h n) ∧ abs h (t.rehash h n) = abs h t :=
+  ⟨⟨(rehash_spec inv.d n).1, hb⟩, funext (fun k => ((rehash_spec inv.d n).2.2 hb).2 k)⟩
+
+theorem inv_put (h : Nat → Nat) (t : Table) (inv : Inv h t) (k : KArg) (v : Val)
+    (hb : (t.put h k v).bad = false) : Inv h (t.put h k v) := by
+  cases k with
+  | nil => exact inv
+  | nan => exact inv
+  | key k => exact ⟨(putKey_spec inv.d k v hb).1, hb⟩
+
+/-- `put` is the finite-map update; putting nil removes; nil / NaN keys are ignored -/
+theorem abs_put (h : Nat → Nat) (t : Table) (inv : Inv h t) (k : KArg) (v : Val)
+    (hb : (t.put h k v).bad = false) : abs h (t.put h k v) = specStep (abs h t) (.put k v) := by
+  cases k with
+  | nil => rfl
+  | nan => rfl
+  | key k => exact funext (fun k' => (putKey_spec inv.d k v hb).2.2 k')
+
+/-- once a NULL dereference has been recorded it stays recorded -/
+theorem bad_sticky_putKey (h : Nat → Nat) (t : Table) (k : Nat) (v : Val) (hb : t.bad = true) :
+    (t.putKey h k v).bad = true := by
+  unfold Table.putKey
+  by_cases hv : v = vNil
+  · simp only [hv, if_true]
+    unfold Table.remove
+    cases hit t.data (dictFind h t.data k) <;> simp [hb]
+  · simp only [hv, if_false]
+    cases hit t.data (dictFind h t.data k) with
+    | some i => simp [hb]
+    | none =>
+      simp only []
+      unfold Table.insertNew Table.insertAt
+      have h1 : (t.maybeRehash h (dictFind h t.data k)).bad = true := by
+        unfold Table.maybeRehash
+        by_cases c : ((dictFind h t.data k).isNone || rehashNeeded t.count t.deleted t.capacity) = true
+        · rw [if_pos c]; unfold Table.rehash; simp only []; rw [hb]; exact rehashLoop_bad _ _ _
+        · rw [if_neg c]; exact hb
+      cases dictFind h (t.maybeRehash h (dictFind h t.data k)).data k <;> simp [h1]
+
+theorem bad_sticky_mergekv (h : Nat → Nat) (l : List Slot) (t : Table) (hb : t.bad = true) :
+    (t.mergekv h l).bad = true := by
+  induction l generalizing t with
+  | nil => exact hb
+  | cons a l ihl =>
+    have e : t.mergekv h (a :: l) = (match a.key with | some k => t.putKey h k a.val | none => t).mergekv h l := rfl
+    rw [e]
+    cases a.key with
+    | none => exact ihl t hb
+    | some ka => exact ihl _ (bad_sticky_putKey h t ka a.val hb)
+
+theorem inv_merge (h : Nat → Nat) (kvs : List Slot) (t : Table) (inv : Inv h t)
+    (hb : (t.mergekv h kvs).bad = false) :
+    Inv h (t.mergekv h kvs) ∧ abs h (t.mergekv h kvs) = specStep (abs h t) (.merge kvs) := by
+  induction kvs generalizing t with
+  | nil => exact ⟨inv, rfl⟩
+  | cons kv rest ih =>
+    have e : t.mergekv h (kv :: rest) = (match kv.key with | some k => t.putKey h k kv.val | none => t).mergekv h rest := rfl
+    have e2 : specStep (abs h t) (.merge (kv :: rest)) =
+        specStep (match kv.key with | some k => upd (abs h t) k kv.val | none => abs h t) (.merge rest) := rfl
+    rw [e] at hb ⊢
+    rw [e2]
+    cases hk : kv.key with
+    | none =>
+      simp only [hk] at hb ⊢
+      exact ih t inv hb
+    | some k =>
+      simp only [hk] at hb ⊢
+      have hb1 : (t.putKey h k kv.val).bad = false := by
+        cases hbb : (t.putKey h k kv.val).bad with
+        | false => rfl
+        | true =>
+          have := bad_sticky_mergekv h rest _ hbb
+          rw [this] at hb; cases hb
+      have hp := putKey_spec inv.d k kv.val hb1
+      have := ih (t.putKey h k kv.val) ⟨hp.1, hb1⟩ hb
+      refine ⟨this.1, ?_⟩
+      have e3 : abs h (t.putKey h k kv.val) = upd (abs h t) k kv.val := funext (fun k' => hp.2.2 k')
+      rw [← e3]
+      exact this.2
+
+theorem abs_merge (h : Nat → Nat) (kvs : List Slot) (t : Table) (inv : Inv h t)
+    (hb : (t.mergekv h kvs).bad = false) :
+    abs h (t.mergekv h kvs) = specStep (abs h t) (.merge kvs) := (inv_merge h kvs t inv hb).2
+
+theorem bad_sticky_step (h : Nat → Nat) (t : Table) (op : Op) (hb : t.bad = true) : (step h t op).bad = true := by
+  cases op with
+  | put k v =>
+    cases k with
+    | nil => exact hb
+    | nan => exact hb
+    | key k => exact bad_sticky_putKey h t k v hb
+  | remove k =>
+    simp only [step]; unfold Table.remove
+    cases hit t.data (dictFind h t.data k) <;> simp [hb]
+  | clear => exact hb
+  | merge kvs => exact bad_sticky_mergekv h kvs t hb
+  | setproto p => exact hb
+
+theorem bad_sticky_run (h : Nat → Nat) (ops : List Op) (t : Table) (hb : t.bad = true) : (run h t ops).bad = true := by
+  induction ops generalizing t with
+  | nil => exact hb
+  | cons op rest ih => exact ih _ (bad_sticky_step h t op hb)
+
+/-- one step refines the reference step -/
+theorem step_refines (h : Nat → Nat) (t : Table) (inv : Inv h t) (op : Op) (hb : (step h t op).bad = false) :
+    Inv h (step h t op) ∧ abs h (step h t op) = specStep (abs h t) op := by
+  cases op with
+  | put k v => exact ⟨inv_put h t inv k v hb, abs_put h t inv k v hb⟩
+  | remove k => exact ⟨inv_remove h t inv k, (abs_remove h t inv k).1⟩
+  | clear => exact ⟨inv_clear h t inv, funext (fun k => abs_clear h t k)⟩
+  | merge kvs => exact inv_merge h kvs t inv hb
+  | setproto p => exact ⟨⟨inv.d, inv.ok⟩, rfl⟩
+
+/-- **Refinement, for all operation sequences**: from any table satisfying the invariant (in particular a fresh
+one), after any list of operations the table satisfies the invariant and equals — as a map — the finite map obtained
+by replaying the same puts and removals. -/
+theorem inv_reachable (h : Nat → Nat) (ops : List Op) (t : Table) (inv : Inv h t)
+    (hb : (run h t ops).bad = false) :
+    Inv h (run h t ops) ∧ abs h (run h t ops) = ops.foldl specStep (abs h t) := by
+  induction ops generalizing t with
+  | nil => exact ⟨inv, rfl⟩
+  | cons op rest ih =>
+    have hb1 : (step h t op).bad = false := by
+      cases hbb : (step h t op).bad with
+      | false => rfl
+      | true =>
+        have := bad_sticky_run h rest _ hbb
+        simp only [run, List.foldl_cons] at hb
+        simp only [run] at this
+        rw [this] at hb; cases hb
+    have hs := step_refines h t inv op hb1
+    have := ih (step h t op) hs.1 (by simpa [run] using hb)
+    simp only [run, List.foldl_cons] at this ⊢
+    rw [← hs.2]
+    exact this
+
+theorem abs_run (h : Nat → Nat) (ops : List Op) (n : Nat) (hb : (run h (Table.init n) ops).bad = false) (k : Nat) :
+    (run h (Table.init n) ops).rawget h k = ops.foldl specStep (fun _ => vNil) k := by
+  have := (inv_reachable h ops (Table.init n) (inv_init h n) hb).2
+  have e : abs h (Table.init n) = fun _ => vNil := funext (fun k => abs_init h n k)
+  rw [e] at this
+  exact congrFun this k
+
+/-- `rawget` reads exactly the bucket array: present key ↦ its value, absent key ↦ nil -/
+theorem rawget_spec (h : Nat → Nat) (t : Table) (inv : Inv h t) (k : Nat) :
+    (∀ i, (slotAt t.data i).key = some k → t.rawget h k = (slotAt t.data i).val ∧ t.rawget h k ≠ vNil) ∧
+    ((∀ i, (slotAt t.data i).key ≠ some k) → t.rawget h k = vNil) :=
+  ⟨fun i hi => ⟨rawget_hit inv.d hi, by rw [rawget_hit inv.d hi]; exact inv.d.live i k hi⟩, fun hno => rawget_miss hno⟩
+
+/-- `get` / `in`: first hit along at most `JANET_MAX_PROTO_DEPTH` prototypes -/
+theorem get_spec (h : Nat → Nat) (heap : Nat → Option Table) (hinv : ∀ r t, heap r = some t → Inv h t)
+    (k : Nat) (fuel : Nat) (r : Nat) :
+    getChain h heap k (fuel + 1) (some r) =
+      match heap r with
+      | none => vNil
+      | some t => if t.rawget h k ≠ vNil then t.rawget h k else getChain h heap k fuel t.proto := by
+  conv => lhs; unfold getChain
+  cases hr : heap r with
+  | none => rfl
+  | some t =>
+    simp only []
+    have inv := hinv r t hr
+    unfold Table.rawget
+    cases hh : hit t.data (dictFind h t.data k) with
+    | none => simp
+    | some i =>
+      simp only []
+      have : (slotAt t.data i).key.isSome = true := by
+        unfold hit at hh
+        cases hf : dictFind h t.data k with
+        | none => rw [hf] at hh; cases hh
+        | some j =>
+          rw [hf] at hh
+          simp only [] at hh
+          by_cases c : (slotAt t.data j).key.isSome = true
+          · rw [if_pos c] at hh; cases hh; exact c
+          · rw [if_neg c] at hh; cases hh
+      obtain ⟨k', hk'⟩ := Option.isSome_iff_exists.mp this
+      have := inv.d.live i k' hk'
+      simp [this]
+
+/-- the depth limit is the generated `JANET_MAX_PROTO_DEPTH` and the walk stops there -/
+theorem get_depth_cutoff (h : Nat → Nat) (heap : Nat → Option Table) (k : Nat) (r : Option Nat) :
+    getChain h heap k 0 r = vNil := by
+  cases r <;> rfl
+
+/-- only lookups consult the prototype: `rawget`, `next`, `length` do not depend on it (and `put` / `remove`
+never read the field: it does not occur in their definitions) -/
+theorem proto_irrelevant (h : Nat → Nat) (t : Table) (p : Option Nat) (k : Nat) :
+    ({ t with proto := p }).rawget h k = t.rawget h k ∧
+    dictNext h ({ t with proto := p }).data (some k) = dictNext h t.data (some k) ∧
+    dictNext h ({ t with proto := p }).data none = dictNext h t.data none ∧
+    ({ t with proto := p }).count = t.count :=
+  ⟨rfl, rfl, rfl, rfl⟩
+
+/-- non-vacuity: a table with two colliding keys, a tombstone and a rehash behind it satisfies the hypotheses -/
+example : (run (fun _ => 7) (Table.init 0)
+    [.put (.key 1) 5, .put (.key 2) 6, .put (.key 3) 7, .remove 2, .put (.key 4) 1, .put (.key 1) 0]).bad = false := by decide
+
+/-! ## sequences: index and range decoding never yields an out-of-range position -/
+open JanetModel.Seq JanetModel.Gen.Seq
+
+/-- `getter_checkint`: an accepted index is within `[0, max)` -/
+theorem no_oob_in (key : Arg) (max : Int) (i : Int) (hi : getterCheckint key max = some i) : 0 ≤ i ∧ i < max := by
+  unfold getterCheckint at hi
+  cases key with
+  | int n =>
+    simp only [] at hi
+    by_cases c1 : n < 0
+    · rw [if_pos c1] at hi; cases hi
+    · rw [if_neg c1] at hi
+      by_cases c2 : n ≥ max
+      · rw [if_pos c2] at hi; cases hi
+      · rw [if_neg c2] at hi; cases hi; omega
+  | nil => cases hi
+  | bad => cases hi
+
+/-- `janet_in` on an array: an error or an in-range read -/
+theorem no_oob_get (a : Arr) (key : Arg) : a.in key = .err ∨ ∃ i : Int, 0 ≤ i ∧ i < a.count ∧ a.in key = .val (a.cells.getD i.toNat none) := by
+  unfold Arr.in
+  cases hc : getterCheckint key a.count with
+  | none => left; rfl
+  | some i => right; exact ⟨i, (no_oob_in key _ i hc).1, (no_oob_in key _ i hc).2, rfl⟩
+
+/-- `janet_gethalfrange`: an accepted position is within `[0, length]` -/
+theorem no_oob_halfrange (a : Arg) (length r : Int) (hr : getHalfRange a length = some r) : 0 ≤ r ∧ r ≤ length := by
+  unfold getHalfRange at hr
+  cases hg : getInteger a with
+  | none => rw [hg] at hr; cases hr
+  | some raw =>
+    rw [hg] at hr
+    simp only [] at hr
+    by_cases c : (if raw < 0 then raw + (length + 1) else raw) < 0 ∨ (if raw < 0 then raw + (length + 1) else raw) > length
+    · rw [if_pos c] at hr; cases hr
+    · rw [if_neg c] at hr; cases hr; omega
+
+/-- `janet_getslice`: `0 ≤ start ≤ end ≤ length` -/
+theorem no_oob_slice (length : Int) (hl : 0 ≤ length) (s e : Option Arg) (st en : Int)
+    (h : getSlice length s e = some (st, en)) : 0 ≤ st ∧ st ≤ en ∧ en ≤ length := by
+  unfold getSlice at h
+  cases hs : getStartRange s length with
+  | none => rw [hs] at h; cases h
+  | some st' =>
+    rw [hs] at h
+    simp only [] at h
+    cases he : getEndRange e length with
+    | none => rw [he] at h; cases h
+    | some en' =>
+      rw [he] at h
+      simp only [Option.some.injEq, Prod.mk.injEq] at h
+      have hst : 0 ≤ st' ∧ st' ≤ length := by
+        unfold getStartRange at hs
+        cases s with
+        | none => cases hs; exact ⟨Int.le_refl 0, hl⟩
+        | some x =>
+          cases x with
+          | nil => cases hs; exact ⟨Int.le_refl 0, hl⟩
+          | int n => exact no_oob_halfrange _ _ _ hs
+          | bad => exact no_oob_halfrange _ _ _ hs
+      have hen : 0 ≤ en' ∧ en' ≤ length := by
+        unfold getEndRange at he
+        cases e with
+        | none => cases he; exact ⟨hl, Int.le_refl _⟩
+        | some x =>
+          cases x with
+          | nil => cases he; exact ⟨hl, Int.le_refl _⟩
+          | int n => exact no_oob_halfrange _ _ _ he
+          | bad => exact no_oob_halfrange _ _ _ he
+      obtain ⟨h1, h2⟩ := h
+      by_cases c : en' < st'
+      · rw [if_pos c] at h2; omega
+      · rw [if_neg c] at h2; omega
+
+/-- `array/remove` (shape of the clamp read off the current source, Gen/Seq.lean): never undefined behaviour.
+Goes through only for the overflow-safe clamp `n > array->count - at`. -/
+theorem aremove_no_ub (a : Arr) (pos : Arg) (n : Option Arg) : (a.remove pos n).2 ≠ .ub := by
+  unfold Arr.remove Arr.removeWith
+  simp only [removeClampNoOverflow]
+  cases getInteger pos with
+  | none => simp
+  | some p =>
+    simp only []
+    by_cases c1 : (if p < 0 then (a.count : Int) + p else p) < 0 ∨ (if p < 0 then (a.count : Int) + p else p) > a.count
+    · rw [if_pos c1]; simp
+    · rw [if_neg c1]
+      cases removeCount n with
+      | none => simp
+      | some m => simp
+
+/-- the other recognised shape `at + n > array->count` overflows: witness -/
+theorem aremove_overflow_ub :
+    (Arr.removeWith false ⟨3, 3, #[some 1, some 2, some 3]⟩ (.int 1) (some (.int 2147483647))).2 = .ub := by decide
+
+/-- `janet_putindex` (shape read off the current source): the gap between the old count and the index is filled -/
+theorem putindex_fills_gap : putindexFillsArrayGap = true ∧ putindexFillsBufferGap = true := by decide
+
+/-- without the fill, cells below `count` are never written: witness -/
+theorem putindex_gap_uninit : (Arr.putindexWith false (Arr.new 0) 2 5).1.items = [none, none, some 5] := by decide
+
+example : (Arr.putindexWith true (Arr.new 0) 2 5).1.items = [some 0, some 0, some 5] := by decide
+
 end JanetModel.Props.C04
